@@ -200,3 +200,32 @@ fn rle_loader_item_count_no_overflow() {
     kani::cover!(!refused && c1 == 1);
     std::mem::forget(cut);
 }
+
+/// A run header written as a 10-byte signed varint of ANY value (so also i64::MIN and its
+/// neighbours), followed by two arbitrary bytes: the validator and the unchecked decoder's
+/// advance must answer without arithmetic overflow - negating a literal-run count taken from the
+/// wire must not overflow.
+#[kani::proof]
+#[kani::unwind(13)]
+#[kani::stub(alloc::fmt::format, crate::verif_kani::stub_format)]
+#[kani::stub(<crate::codec::Leb128 as crate::codec::Codec>::read_unsigned, crate::verif_kani::ref_read_unsigned)]
+#[kani::stub(<crate::codec::Leb128 as crate::codec::Codec>::read_signed, crate::verif_kani::ref_read_signed)]
+#[kani::stub(<crate::codec::Leb128 as crate::codec::Codec>::try_read_unsigned, crate::verif_kani::ref_try_read_unsigned)]
+#[kani::stub(<crate::codec::Leb128 as crate::codec::Codec>::try_read_signed, crate::verif_kani::ref_try_read_signed)]
+fn rle_ten_byte_run_header_total() {
+    let mut b: [u8; 12] = kani::any();
+    let mut i = 0;
+    while i < 9 {
+        b[i] |= 0x80;
+        i += 1;
+    }
+    kani::assume(b[9] == 0x00 || b[9] == 0x7f);
+    let r = rle_validate_encoding::<u64, Leb128>(&b);
+    kani::cover!(r.is_err());
+    std::mem::forget(r);
+    let mut d = RleDecoder::<u64, Leb128>::new(&b);
+    let seg = d.try_next_segment();
+    kani::cover!(matches!(seg, Ok(Some(RleSegment::LitHead { .. }))));
+    kani::cover!(matches!(seg, Ok(Some(RleSegment::Run { .. }))));
+    std::mem::forget(seg);
+}
